@@ -73,7 +73,7 @@ CHECKS.update({
     'C04': dict(
         technique='property-based testing of generated response/clock histories in the simulator; invariant oracle over the callback history and the real cache',
         text=SIM + 'browsers receive generated datagram histories (new/refresh/re-cased/goodbye/flush/repeated pointers, datagrams mixing pointer and SRV/TXT/A changes of one instance, clock steps up to hours); '
-             'callback alternation, live-set == cached pointer set after every op, and visibility of the triggering records from inside add_service.',
+             'listeners given as listener= objects (also without update_service) or as handlers=[callable] (also with a one-shot handler that unregisters itself); callback alternation, live-set == cached pointer set after every op, and visibility of the triggering records from inside add_service.',
         note='restrictions of the property are built into the generator; C05 ties the cache itself to the RFC model',
         ref='3/C04'),
 })
@@ -93,7 +93,7 @@ CHECKS.update({
         technique='property-based testing of generated arrival schedules in the simulator with recorded jitter; oracle = per-(query,record) time windows + injective justification matching over the independently decoded trace',
         text=SIM + 'schedules of 1-8 QM queries, peer sightings and truncated trains on a float-exact millisecond grid; every multicast answer must fall in a '
              'window some query justifies (immediate / aggregated 20..500 ms / protected sighting+1 s..query+1.2 s), every requirement must be covered, no '
-             'duplicates; trains are assembled once per source after the recorded 400-500 ms hold with the union of known answers.',
+             'duplicates; trains (whose last packet may be a probe) are assembled once per source after the recorded 400-500 ms hold with the union of known answers; the same query bytes from several hosts less than a second apart: only copies the documented duplicate guard drops may go unhandled.',
         note='sightings are read from the wire (every response record arriving on one of the host\'s sockets, its own multicasts included, except in a datagram byte-identical to the previous one on that socket within a second - the documented duplicate guard); assembly instants observed by wrapping handle_assembled_query from the harness; a truncated train counts as arriving when it is assembled (windows anchored there)',
         ref='3/C12'),
 })
@@ -121,7 +121,7 @@ CHECKS.update({
     'C10': dict(
         technique='property-based testing of generated learn/refresh/re-case/withdraw/clock histories in the simulator; existential ladder-search oracle over the browser\'s query instants',
         text=SIM + 'one or two browsers, each on one or several types (also a type with one of its subtypes, whose pointers name the same instances); pointer records with different TTLs are learned (also repeated inside one datagram) in any order relative to the scheduler\'s armed wake-up, refreshes with another TTL aimed at the window in which the scheduler keeps its entry; start-up schedule and question types, '
-             'minimum spacing, a 75 %/+10 % ladder of refresh attempts per record lifetime (searched existentially) and absence of queries on stale schedules are checked over hours of virtual time.',
+             'minimum spacing, a 75 %/+10 % ladder of refresh attempts per record lifetime (searched existentially) and absence of queries on stale schedules are checked over hours of virtual time; a quarter of the cases use the thread-based ServiceBrowser.',
         note='ladder windows carry one inter-query delay of slack on both sides; expiry discovered by the engine\'s own purge timer',
         ref='3/C10'),
 })
@@ -141,7 +141,7 @@ CHECKS.update({
         technique='property-based testing of generated cache states and record arrival schedules in the simulator; oracle = availability intervals from the harness\' own injection log',
         text=SIM + 'SRV/TXT/A/AAAA records absent, fresh, stale or expired-but-unpurged, plus arrivals (records in either order inside a datagram) on a grid around the lookup\'s query instants and its deadline; '
              'return time bound, True => fields from records unexpired inside the window and >= 1 address, False => SRV and address never both available, '
-             'cache-first without transmission listing all unexpired addresses, QU-then-QM, and per query: fresh SRV/TXT answer held => question omitted, no unexpired answer held => question asked.',
+             'cache-first without transmission listing all unexpired addresses (also one link-local address cached under two scopes), QU-then-QM, and per query: fresh SRV/TXT answer held => question omitted, no unexpired answer held => question asked.',
         note='no cache-flush bits; one SRV identity per instance; same-instant ordering by sequence number',
         ref='3/C18'),
 })
